@@ -37,7 +37,7 @@ def arrv(v):
     if v is None:
         return None
     if v.kind == "maybe":
-        v = v.items[0]
+        v = v.items[0] if v.items else V("unk", v.term, labels=v.labels, orig=v.orig)
     if v.kind in ("arr",):
         return v
     if v.kind in ("list", "tuple", "int", "float", "bool"):
@@ -190,6 +190,9 @@ def np_squeeze(interp, name, args, kw, st, node):
     else:
         # axes of extent exactly 1 (an axis of symbolic extent is kept: the generic case)
         drop = [i for i, d in enumerate(sh) if d.is_const() and d.c == 1]
+        if any(not d.is_const() for d in sh) and len(sh) >= 2:
+            # the rank of the result depends on the data: an axis of extent n disappears too when n == 1
+            interp.event("shape-conflict", node, st, what="squeeze() without axis on an array with a data-dependent extent (also drops that axis when it is 1)", a=tuple(sh), b="rank depends on the data")
     if not drop:
         return x
     nsh = tuple(d for i, d in enumerate(sh) if i not in drop)
@@ -2062,9 +2065,23 @@ def np_einsum(interp, name, args, kw, st, node):
         return opaque()
     if any(len(set(s)) != len(s) for s in subs) or len(set(out)) != len(out) or any(len(s) > 2 for s in subs):
         return opaque()
+    # an index that occurs in one operand only and not in the output is summed inside that operand
+    ops, subs = list(ops), list(subs)
+    for k in range(len(ops)):
+        others = set(out) | set("".join(s for j, s in enumerate(subs) if j != k))
+        if any(c not in others for c in subs[k]) and len(ops) > 1:
+            v_, i_ = red(ops[k], subs[k], others)
+            if v_ is None:
+                return opaque()
+            ops[k], subs[k] = v_, i_
+    cur, ci = ops[0], subs[0]
     for k in range(1, len(ops)):
         nxt, ni = ops[k], subs[k]
         later = set(out) | set("".join(subs[k + 1:]))
+        if len(ci) == 1 and len(ni) == 1 and ci != ni and ci in later and ni in later:
+            # u_i v_j: the outer product
+            cur, ci = NP["numpy.outer"](interp, "numpy.outer", [cur, nxt], {}, st, node), ci + ni
+            continue
         if set(ci) == set(ni) and len(ci) == len(ni):
             b = nxt if ni == ci else tr(nxt)
             gone = [c for c in ci if c not in later]
